@@ -136,7 +136,7 @@ int main(int argc, char **argv) {
         struct timespec t0; clock_gettime(CLOCK_MONOTONIC, &t0);
         for (uint64_t n = 0; n < count; n++) {
             uint64_t i = start + n * stride, rs = run_seed(base, i);
-            Plan p = gen_plan(rs);
+            Plan p = gen_plan(rs); simrt::run_deadline(60);
             C::g_index = i;
             std::vector<uint64_t> pairs;
             RunResult rr = run_plan(p, &st, &pairs);
